@@ -1,9 +1,13 @@
 (* C01 -- parsing and validation are total; one result per id.  Statements only.
-   PARTIAL (see DESIGN.md section 8): proved here are the validation half, the id/key bookkeeping and the
-   soundness of every position the model builds.  That the table-driven parser model never reaches `Panicked`
-   and never runs out of fuel for the regenerated tables is not proved; it is exercised by the exact
-   correspondence parser-model = implementation on every generated input. *)
-From AidlV Require Import Spec.Master Proofs.Master Proofs.Totality Proofs.ParserState Model.ParserState Model.LrDriver.
+   PARTIAL (see DESIGN.md): proved here are the validation half, the id/key bookkeeping, the soundness of every
+   position the model builds, and -- for the regenerated lexer table, LR tables and action table -- that the
+   table-driven parser never panics: no action is ever applied to a value of the wrong shape, no Position::new
+   is asked for an offset that is not a character boundary, no u32 parse or javadoc slice fails, error recovery
+   always finds the `!` shift it was promised and never meets a token at EOF.  What remains unproved is that the
+   loops' fuel suffices (termination of the LR automaton); a case where the model runs out of fuel is a
+   correspondence failure of corr_parse, so it cannot go unnoticed. *)
+From AidlV Require Import Spec.Master Proofs.Master Proofs.Totality Proofs.ParserState Model.ParserState Model.LrDriver
+  Proofs.Typing Proofs.DriverSafe.
 
 (* validation of grammar-shaped trees cannot panic (index [0], unreachable!, unwrap on None) *)
 Theorem C01_validation_total : forall defined a ds0,
@@ -27,6 +31,41 @@ Theorem C01_positions_partial : forall cx s e r,
   p_off (r_start r) = s /\ p_off (r_end r) = e /\ (s <= byte_len (cx_src cx))%N /\ (e <= byte_len (cx_src cx))%N.
 Proof. exact mk_range_sound. Qed.
 Print Assumptions C01_positions_partial.
+
+(* the parser stage: on every source text (with the line/column table the harness supplies: one entry per character
+   and one for the end) add_content stores a result -- it never panics and never meets an ill-typed value *)
+Theorem C01_parse_partial : forall cx,
+  length (cx_lc cx) = S (length (cx_src cx)) -> forall id,
+  (exists fr, add_content cx id = Added fr) \/ add_content cx id = AddFuel.
+Proof. exact add_content_safe. Qed.
+Print Assumptions C01_parse_partial.
+
+(* every action of every reduction the driver performs returns a value of its nonterminal's type,
+   hence neither VPanic (a Rust panic) nor VBad (a shape the generated code could not even have compiled) *)
+Theorem C01_reductions_typed : forall cx, length (cx_lc cx) = S (length (cx_src cx)) ->
+  forall p idx la, pst_ok cx p -> Automaton.reduce_ok (top_state p) idx = true -> ola_ok cx la ->
+  match reduce cx p idx la with
+  | RCont p' => pst_ok cx p' /\ same_lexer p p'
+  | RAccept p' v => has_type cx accept_type v
+  | RPanic _ => False
+  end.
+Proof. exact reduce_safe. Qed.
+Print Assumptions C01_reductions_typed.
+
+(* non-vacuity: a well-formed context on which the parser produces a tree, and one on which it recovers *)
+Definition flat_lc (s : str) : list (N * N) := map (fun i => (1, N.of_nat i + 1)%N) (seq 0 (S (length s))).
+Example C01_ex_ok :
+  let cx := Ctx (lit "package p; interface I { void f(in int x); }") (flat_lc (lit "package p; interface I { void f(in int x); }")) in
+  length (cx_lc cx) = S (length (cx_src cx)) /\ exists a, add_content cx (lit "f") = Added (FR (lit "f") (Some a) []).
+Proof. split; [reflexivity|]. vm_compute. eexists. reflexivity. Qed.
+Example C01_ex_recovered :
+  let cx := Ctx (lit "package p; interface I { void f(in int x) oops; int g(); }") (flat_lc (lit "package p; interface I { void f(in int x) oops; int g(); }")) in
+  length (cx_lc cx) = S (length (cx_src cx)) /\ exists a d ds, add_content cx (lit "f") = Added (FR (lit "f") (Some a) (d :: ds)).
+Proof. split; [reflexivity|]. vm_compute. do 3 eexists. reflexivity. Qed.
+Example C01_ex_failed :
+  let cx := Ctx (lit "interface {") (flat_lc (lit "interface {")) in
+  exists d, add_content cx (lit "f") = Added (FR (lit "f") None [d]).
+Proof. vm_compute. eexists. reflexivity. Qed.
 
 (* the full statement, kept visible *)
 Definition C01_full : Prop :=
